@@ -72,7 +72,7 @@ def run_translators():
     sys.path.insert(0, os.path.join(VERIF, "translate"))
     problems = []
     files = {}
-    for modname in ("dsl2lean", "tags2lean", "consts2lean", "globals2lean"):
+    for modname in ("dsl2lean", "tags2lean", "consts2lean", "globals2lean", "enc2lean"):
         path = os.path.join(VERIF, "translate", modname + ".py")
         if not os.path.exists(path):
             continue
